@@ -22,6 +22,8 @@ CONSTANTS L,          \* successor list length (chord.ExtendedSuccessorEntries =
           FixLeave,   \* TRUE: RequestToLeave refuses (retryably) unless the leaver is the node's predecessor
           FixWrap,    \* TRUE: stabilize cuts the new successor list after the node itself (entries past a full circle are dropped)
           FixDead,    \* TRUE: stabilize falls back to the nearest live finger / predecessor (or the node itself) when every node of its list has departed
+          FixAdopt,   \* TRUE: stabilize adopts its successor's predecessor as new successor only once that node has a successor list of its own
+                      \*       (a joining node is its successor's predecessor from the moment the join is granted, one round trip before it installs its list)
           MaxTry,     \* bound on join / leave attempts in the model (code: 10)
           TrackCov    \* TRUE: record in s.cov which branch of which action was taken (coverage goals; witnesses are replayed on the real code)
 
@@ -72,7 +74,7 @@ StabList(s, n, list) ==
   ELSE LET h == Head(list) IN
        IF Live(s, h) THEN
             LET ns == s.pred[h] IN
-            IF ns # Nil /\ NB(s.lay, n, ns, h, FALSE) /\ Live(s, ns)
+            IF ns # Nil /\ NB(s.lay, n, ns, h, FALSE) /\ Live(s, ns) /\ (FixAdopt => s.succ[ns] # <<>>)
             THEN MkList(ns, s.succ[ns]) ELSE MkList(h, s.succ[h])
        ELSE StabList(s, n, Tail(list))
 
@@ -168,6 +170,18 @@ JoinLockF(s0, j) ==
   ELSE IF s.jtry[j] + 1 >= MaxTry THEN [s EXCEPT !.jpc[j] = "failing", !.jtry[j] = @ + 1]
   ELSE [s EXCEPT !.jpc[j] = "req", !.jtry[j] = @ + 1]
 
+(* The lock word.  nodeState.Transition loads the word and compare-and-swaps the whole of it (state and transition counter); the
+   specification keeps a lock acquisition atomic, which is what NodeState.tla (C13) establishes for Transition as a linearizable
+   operation.  Its linearization point lies anywhere between the load and the compare-and-swap: an acquisition whose load preceded a
+   complete lock cycle of another operation fails although the node is Active again when it resumes - it is linearized at a moment
+   when the node was locked.  The *Early variants are the refused outcomes taken regardless of the present state; trace validation
+   admits them only for a step that resumed from the gate after the load (ns:loaded) and only if the recorded states since that load
+   show the target node locked (field early of the trace line, computed from the log). *)
+JoinLockEarlyF(s0, j) ==
+  LET s == Cov(s0, "join-refused-busy-early") IN
+  IF s.jtry[j] + 1 >= MaxTry THEN [s EXCEPT !.jpc[j] = "failing", !.jtry[j] = @ + 1]
+  ELSE [s EXCEPT !.jpc[j] = "req", !.jtry[j] = @ + 1]
+
 (* an attempt that fails during routing (retryable or not) *)
 JoinRouteFailEn(s, j) == s.jpc[j] = "req"
 JoinRouteFailF(s, j, fatal) ==
@@ -240,6 +254,13 @@ LeaveSecondF(s, l) ==
         ELSE LeaveRetry([Cov(s, IF s.st[sc] = "Active" THEN "leave2-selffirst-refused-not-predecessor" \o HoldsKeys(s, l) ELSE "leave2-selffirst-refused-succ-busy")
                          EXCEPT !.st[l] = "Active", !.lpc[l] = "try"], l))
 
+LeaveFirstEarlyF(s, l) == LeaveRetry(Cov(s, "leave1-refused-busy-early"), l)
+LeaveSecondEarlyF(s, l) ==
+  LET sc == s.ls[l] IN
+  IF s.lay.npos[l] > s.lay.npos[sc] THEN
+       LeaveRetry([Cov(s, "leave2-succfirst-refused-self-busy-early") EXCEPT !.st[sc] = IF @ = "Transferring" THEN "Active" ELSE @, !.lpc[l] = "try"], l)
+  ELSE LeaveRetry([Cov(s, "leave2-selffirst-refused-succ-busy-early") EXCEPT !.st[l] = "Active", !.lpc[l] = "try"], l)
+
 LeaveTransferEn(s, l) == s.lpc[l] = "locked"           \* transferKeysDownward under surrogateMu; surrogate = self
 LeaveTransferF(s, l) ==
   LET sc == s.ls[l]
@@ -270,6 +291,19 @@ LookupSet(s, a, k) ==
   ELSE IF Hd(s, a) # Nil /\ KB(s.lay, a, k, Hd(s, a), TRUE) THEN {Hd(s, a)}
   ELSE {Hd(s, z) : z \in {z \in NodesOf(s.lay) : Live(s, z) /\ Hd(s, z) # Nil /\ KB(s.lay, z, k, Hd(s, z), TRUE)}}
        \cup {z \in NodesOf(s.lay) : Live(s, z) /\ s.pred[z] # Nil /\ KB(s.lay, s.pred[z], k, z, TRUE)}
+
+(* ErrNodeNoSuccessor (not retryable): the lookup is handed to a live node that has no successor list yet and does not own the key.  Such a
+   node is on the route when some live node names it as its first successor: a joiner that its future predecessor adopted in a stabilize
+   round between the grant of the join and the installation of the joiner's list.  (LookupSet abstracts the hops of a lookup; this is the one
+   hop at which it can die.) *)
+NoSuccHazard(s, a, k) ==
+  /\ ~(s.pred[a] # Nil /\ KB(s.lay, s.pred[a], k, a, TRUE))
+  /\ ~(Hd(s, a) # Nil /\ KB(s.lay, a, k, Hd(s, a), TRUE))
+  /\ \E z \in NodesOf(s.lay) : LET j == Hd(s, z) IN
+        /\ Live(s, z) /\ j # Nil /\ j # z /\ Live(s, j) /\ s.succ[j] = <<>>
+        /\ (z = a \/ ~KB(s.lay, a, k, z, TRUE))           \* z lies before the key on the way from a
+        /\ ~KB(s.lay, z, k, j, TRUE)
+        /\ ~(s.pred[j] # Nil /\ KB(s.lay, s.pred[j], k, j, TRUE))
 
 (* the decision taken under surrogateMu.RLock at node a for key k: "stale" | <<"fwd", node>> | "local" *)
 LocalDecision(s, a, k) ==
@@ -328,10 +362,11 @@ NoBad(s) == s.bad = {}
 CONSTANTS MCLayout, InitMembers, Joiners, Leavers, MaxOps, Faults, OpKinds
 (* two switches of the model-checking instance ride on OpKinds (so the many configurations need no further constant):
    "stab"    - also explore stabilize rounds that interleave with other steps (StabRead / StabWrite);
-   "fwdlock" - the forward to the surrogate is made while surrogateMu is still read-locked (the code before its repair) *)
+   "fwdlock" - the forward to the surrogate is made while surrogateMu is still read-locked (the code before its repair);
+   "nosucc"  - a lookup that can be handed to a live node without successor list ends with the non-retryable ErrNodeNoSuccessor *)
 SplitStab == "stab" \in OpKinds
 FwdUnderLock == "fwdlock" \in OpKinds
-ClientKinds == OpKinds \ {"stab", "fwdlock"}
+ClientKinds == OpKinds \ {"stab", "fwdlock", "nosucc"}
 
 VARIABLES s, ops      \* ops: client operations [kind, k, arg, at, hops, st, r]
 vars == <<s, ops>>
@@ -407,6 +442,8 @@ OpStep(i) ==
      IF o.hops > 4 THEN ops' = [ops EXCEPT ![i].st = "looped"] /\ UNCHANGED s
      ELSE IF ~Live(s, a) THEN     \* ErrNodeGone at a hop is mapped to the retryable stale-ownership error
           ops' = [ops EXCEPT ![i].st = IF s.st[a] = "Inactive" THEN "notstarted" ELSE "stale"] /\ UNCHANGED s
+     ELSE IF "nosucc" \in OpKinds /\ NoSuccHazard(s, a, k)      \* (pessimistic routing: whenever the lookup can die, it does)
+          THEN ops' = [ops EXCEPT ![i].st = "nosucc"] /\ UNCHANGED s
      ELSE \E r \in LookupSet(s, a, k) :
           IF r # a THEN ops' = [ops EXCEPT ![i].at = r, ![i].hops = o.hops + 1] /\ UNCHANGED s
           ELSE IF a \in o.held THEN ops' = [ops EXCEPT ![i].st = "relock"] /\ UNCHANGED s     \* second surrogateMu.RLock of one call chain
@@ -437,7 +474,7 @@ InvNoBad == NoBad(s)
 CONSTANT Goal
 InvGoalUnreached == ~(Goal \in s.cov)          \* coverage goal: its "counterexample" is a witness behaviour
 (* C04: a read linearizes at its local access, where it must see the last linearized write: tag "staleread" in bad *)
-InvNoNonRetryable == \A i \in 1..Len(ops) : ops[i].st \notin {"notstarted", "looped"}
+InvNoNonRetryable == \A i \in 1..Len(ops) : ops[i].st \notin {"notstarted", "looped", "nosucc"}
 (* the forward to the surrogate is made while surrogateMu is read-locked; if the call chain returns to the same node it read-locks
    again: with a writer (RequestToJoin, Notify, Leave, Import) queued in between, both wait for ever *)
 InvNoRelock == \A i \in 1..Len(ops) : ops[i].st # "relock"
